@@ -375,8 +375,78 @@ fn directed(emit: &mut Emit) {
     }
 }
 
+/// functions lifted by falcon's own amd64 translator from random sequences of real instruction
+/// encodings (flag computations are mostly dead: dead-code elimination removes a lot; syscall, cpuid and
+/// rdtsc are lifted to intrinsics)
+fn lifted(rng: &mut Rng, emit: &mut Emit, n: usize) {
+    use falcon::memory::{backing, MemoryPermissions};
+    use falcon::translator::{x86::Amd64, Translator};
+    let pool: Vec<Vec<u8>> = vec![
+        vec![0x01, 0xd8],             // add eax, ebx
+        vec![0x29, 0xc8],             // sub eax, ecx
+        vec![0x31, 0xc0],             // xor eax, eax
+        vec![0x48, 0x01, 0xd8],       // add rax, rbx
+        vec![0x48, 0xff, 0xc0],       // inc rax
+        vec![0xff, 0xc9],             // dec ecx
+        vec![0x83, 0xff, 0x05],       // cmp edi, 5
+        vec![0x85, 0xc0],             // test eax, eax
+        vec![0x48, 0x89, 0xe5],       // mov rbp, rsp
+        vec![0x89, 0x7d, 0xfc],       // mov [rbp-4], edi
+        vec![0x8b, 0x45, 0xfc],       // mov eax, [rbp-4]
+        vec![0x0f, 0xaf, 0xc0],       // imul eax, eax
+        vec![0x50],                   // push rax
+        vec![0x58],                   // pop rax
+        vec![0x0f, 0x05],             // syscall
+        vec![0x0f, 0xa2],             // cpuid
+        vec![0x0f, 0x31],             // rdtsc
+        vec![0xc1, 0xe0, 0x03],       // shl eax, 3
+        vec![0xd1, 0xe8],             // shr eax, 1
+        vec![0x48, 0x8d, 0x04, 0x1f], // lea rax, [rdi+rbx]
+        vec![0x0f, 0xb6, 0xc3],       // movzx eax, bl
+        vec![0x19, 0xd8],             // sbb eax, ebx
+        vec![0x11, 0xd8],             // adc eax, ebx
+        vec![0x0f, 0x94, 0xc0],       // sete al
+        vec![0x0f, 0x44, 0xc3],       // cmove eax, ebx
+        vec![0xb8, 0x01, 0x00, 0x00, 0x00], // mov eax, 1
+        vec![0xf7, 0xd8],             // neg eax
+    ];
+    let jcc = [0x7fu8, 0x75, 0x74, 0x72, 0x7c]; // jg jnz je jb jl
+    for _ in 0..n {
+        let k = rng.range(1, 9);
+        let mut bytes: Vec<u8> = Vec::new();
+        for _ in 0..k {
+            let ins = rng.pick(&pool).clone();
+            if rng.chance(1, 5) {
+                // a conditional jump over the next instruction
+                bytes.push(*rng.pick(&jcc));
+                bytes.push(ins.len() as u8);
+            }
+            bytes.extend(ins);
+        }
+        if rng.chance(1, 6) {
+            // a backward jump to the start: a loop
+            bytes.push(*rng.pick(&jcc));
+            bytes.push((256 - (bytes.len() as i64 + 1)) as u8);
+        }
+        bytes.push(0xc3); // ret
+        let mut mem = backing::Memory::new(Endian::Little);
+        mem.set_memory(0x1000, bytes, MemoryPermissions::ALL);
+        if let Some(Ok(f)) = catch(|| Amd64::new().translate_function(&mem, 0x1000)) {
+            let s = function_str(&f);
+            // only what survives the FIL round trip is a self-contained request
+            if parse_all(&s).and_then(|v| v.first().and_then(read_function)).map(|f2| function_str(&f2)) == Some(s.clone()) {
+                emit.case("lifted/amd64", s);
+            }
+        }
+    }
+}
+
 fn generate(tier: Tier, rng: &mut Rng, emit: &mut Emit) {
     directed(emit);
+    lifted(rng, emit, match tier {
+        Tier::Quick => 300,
+        Tier::Thorough => 3000,
+    });
     let n = match tier {
         Tier::Quick => 1500,
         Tier::Thorough => 8000,
